@@ -74,7 +74,7 @@ type WaitGroup struct {
 }
 
 func (wg *WaitGroup) Add(delta int) {
-	vrt.Point("wg.Add")
+	vrt.PointObj("wg.Add", unsafe.Pointer(&wg.st))
 	wg.mu.Lock()
 	n := vrt.WGAdd(&wg.st, delta)
 	wg.mu.Unlock()
@@ -149,14 +149,14 @@ func (c *Cond) Wait() {
 }
 
 func (c *Cond) Signal() {
-	vrt.Point("cond.Signal")
+	vrt.PointObj("cond.Signal", unsafe.Pointer(&c.st))
 	c.mu.Lock()
 	vrt.CondSignal(&c.st, false)
 	c.mu.Unlock()
 }
 
 func (c *Cond) Broadcast() {
-	vrt.Point("cond.Broadcast")
+	vrt.PointObj("cond.Broadcast", unsafe.Pointer(&c.st))
 	c.mu.Lock()
 	vrt.CondSignal(&c.st, true)
 	c.mu.Unlock()
